@@ -1,10 +1,13 @@
 (** C11 — list views of a field read the exact values and write back only what changed.
     Only statements; every proof is [exact <lemma>] or a short composition.
 
-    Model: Repro/ListView.v; spec: Repro/ListSpec.v; proofs: Repro/ListProofs.v (+ ListLemmas.v). *)
+    Model: Repro/ListView.v (the functions [interpret], [run_session], [update_field],
+    [reparse] that ListCheck.agree runs); spec: Repro/ListSpec.v ([split_spec], [value_ok],
+    [closed_value], [good_value], [list_remove], [list_replace] that ListCheck.holds uses);
+    proofs: Repro/ListLemmas.v, ListProofs.v, ListEditProofs.v, ListRefProofs.v. *)
 From Coq Require Import String.
 From Verif Require Import Lib.Base Lib.Dec Lib.PyStr Gen.PyChars
-  Repro.ListView Repro.ListSpec Repro.ListLemmas Repro.ListProofs.
+  Repro.ListView Repro.ListSpec Repro.ListLemmas Repro.ListProofs Repro.ListEditProofs Repro.ListRefProofs.
 
 Definition is_comma (k : lkind) : bool := match k with Comma => true | Space => false end.
 
@@ -36,6 +39,102 @@ Proof.
   destruct (view_noop_identity k name value os H) as [H1 H2]. now rewrite H2.
 Qed.
 
+(** 3. view_edit_readback, whitespace-separated lists.  For every value text of the domain
+       that does not end inside a comment ([closed_value]), every field name accepted by the
+       field-line pattern ([name_ok]) and EVERY sequence of append / remove / replace
+       operations whose new values are good values (non-empty, no whitespace):
+       - list(view) after opening is the reference split l0;
+       - every operation does what the Python list operation does on the values (the list
+         after it is the observed list), and is refused exactly when the list operation is
+         not applicable (value absent), leaving everything as it was;
+       - if closing the view succeeds, the text written back is again in the domain, (when
+         something was written) re-parses without error to itself, and a fresh list view
+         of it reads exactly the edited list;
+       - if closing fails, the field keeps its text. *)
+Theorem C11_view_edit_readback_space :
+  forall name v os,
+    value_ok v = true -> closed_value v = true -> name_ok name = true ->
+    forallb edit_op os = true ->
+    let r := run_session Space name v os in
+    let l0 := split_spec false v in
+    sr_read r = Ok l0
+    /\ map outcome_list (sr_ops r) = fst (l_run os l0)
+    /\ (sr_close r = None ->
+        value_ok (sr_value r) = true
+        /\ (sr_value r = v \/ reparse name (sr_value r) = Ok (sr_value r))
+        /\ exists vw', interpret Space (sr_value r) = Ok vw' /\ view_values vw' = snd (l_run os l0))
+    /\ (forall e, sr_close r = Some e -> sr_value r = v).
+Proof. exact view_edit_readback_space. Qed.
+
+(** the single step behind it: what _update_field writes for a view in the invariant reads
+    back as the values of the view, is in the domain and re-parses to itself *)
+Theorem C11_view_edit_valid_space :
+  forall name vw v',
+    inv vw -> name_ok name = true -> update_field name vw = Ok v' ->
+    value_ok v' = true
+    /\ reparse name v' = Ok v'
+    /\ exists vw', interpret Space v' = Ok vw' /\ view_values vw' = view_values vw.
+Proof. exact update_field_readback. Qed.
+
+(** 4. view_edit_local.  Whatever the session does (any interpretation, any operations, any
+       value text), the document afterwards is the document before with only the value text
+       of that field exchanged; a close that raises leaves the document byte-identical.
+       (In this model the list view only ever produces a new value text - _update_field
+       replaces kvpair.value_element and nothing else; that the implementation's dump equals
+       doc_of pre name (sr_value r) post is what the correspondence check compares.) *)
+Theorem C11_view_edit_local :
+  forall k name value os pre post,
+    let r := run_session k name value os in
+    (exists v', doc_of pre name (sr_value r) post = pre ++ name ++ [COLON] ++ v' ++ post)
+    /\ (forall e, sr_close r = Some e -> doc_of pre name (sr_value r) post = doc_of pre name value post).
+Proof.
+  intros k name value os pre post r. split; [now exists (sr_value r)|].
+  intros e He. f_equal. subst r. unfold run_session in *.
+  destruct (interpret k value) as [vw|e0]; [|reflexivity].
+  destruct (run_ops k os vw) as [outs vf]. unfold close in *.
+  destruct (v_changed vf); [|discriminate]. destruct (update_field name vf); [discriminate|reflexivity].
+Qed.
+
+(** 5. view_edit_readback, whitespace-separated lists, directly AND through value references.
+       The same for every sequence over append / remove / replace / snapshot of the value
+       references / ref.value / ref.value = x / ref.remove(), against the abstract
+       list-with-identities machine of ListSpec ([a_step], the one ListCheck.holds walks):
+       - every operation of the model is refused exactly when the abstract operation is not
+         applicable (value absent, reference index out of range, reference to a removed
+         value), and then changes nothing;
+       - otherwise list(view) afterwards is the abstract list and a reference read returns
+         the abstract value (references survive edits of other values, a replaced value keeps
+         its identity, a removed one invalidates exactly its references);
+       - if closing succeeds, the written text is in the domain and a fresh view of it reads
+         exactly the final abstract list; if closing fails the field keeps its text. *)
+Theorem C11_view_session_refines_space :
+  forall name v os,
+    value_ok v = true -> closed_value v = true -> name_ok name = true ->
+    forallb value_op os = true ->
+    let r := run_session Space name v os in
+    let st0 := a_init (split_spec false v) in
+    sr_read r = Ok (split_spec false v)
+    /\ map outcome_abs (sr_ops r) = fst (a_run os st0)
+    /\ (sr_close r = None ->
+        value_ok (sr_value r) = true
+        /\ exists vw', interpret Space (sr_value r) = Ok vw'
+                       /\ view_values vw' = a_values (snd (a_run os st0)))
+    /\ (forall e, sr_close r = Some e -> sr_value r = v).
+Proof. exact view_session_refines_space. Qed.
+
+(** NOT PROVED (kept visible):
+    view_edit_readback_comma (theorems 3 and 5 for comma-separated lists)
+      forall name v os, value_ok v = true -> closed_value v = true -> name_ok name = true ->
+        forallb (value_op with good_value true) os = true ->
+        the conclusions of theorem 5 with Comma / split_spec true / good_value true
+      - missing: the invariant on comma token lists (between two values there is exactly one
+        comma; what _remove_node unlinks contains exactly one comma or the list ends) and its
+        preservation by append / remove, plus the analogue of [written_text] for comma tokens.
+        Reading (theorem 1), the no-op close (2) and locality (4) ARE proved for comma lists;
+        their edits are covered by the correspondence and by holds on every run.
+    The operations append_separator / append_newline / append_comment (not named by the
+    property) are modelled and compared, not covered by theorems 3 and 5. *)
+
 Local Open Scope string_scope.
 Example C11_nonvacuous_read :
   let v := dec " a,\00000a b c\00000a# note, x\00000a\000009d ,, e,\00000a" in
@@ -46,5 +145,43 @@ Example C11_nonvacuous_read :
   /\ forallb read_only [OSnap; ORefGet 1; ORefGet 7] = true.
 Proof. vm_compute. repeat split. eexists. split; reflexivity. Qed.
 
+(** a session that meets every hypothesis of theorem 3: comment between the values, tab
+    continuation, removal of the first, a middle and an absent value, a replace, appends;
+    the close succeeds and the written text is as expected *)
+Example C11_nonvacuous_edit :
+  let v := dec " a b\00000a# keep me\00000a\000009c  d\00000a" in
+  let os := [ORemove (dec "a"); OAppend (dec "#e"); ORemove (dec "zz"); OReplace (dec "c") (dec "x=1");
+             ORemove (dec "d"); OAppend (dec "f")] in
+  let r := run_session Space (dec "X-List") v os in
+  value_ok v = true /\ closed_value v = true /\ name_ok (dec "X-List") = true
+  /\ forallb edit_op os = true
+  /\ split_spec false v = [dec "a"; dec "b"; dec "c"; dec "d"]
+  /\ snd (l_run os (split_spec false v)) = [dec "b"; dec "x=1"; dec "#e"; dec "f"]
+  /\ sr_close r = None
+  /\ sr_value r = dec " b\00000a# keep me\00000a\000009x=1 #e f\00000a".
+Proof. vm_compute. repeat split. Qed.
+
+(** references: snapshot, write through the second, remove through the first, a stale read is
+    refused, append, read the appended value through a fresh snapshot *)
+Example C11_nonvacuous_refs :
+  let v := dec " a b\00000a c\00000a" in
+  let os := [OSnap; ORefSet 1 (dec "z"); ORefRemove 0; ORefGet 0; ORefSet 0 (dec "q");
+             OAppend (dec "w"); ORefGet 2; OSnap; ORefGet 2] in
+  let r := run_session Space (dec "F") v os in
+  value_ok v = true /\ closed_value v = true /\ name_ok (dec "F") = true
+  /\ forallb value_op os = true
+  /\ map outcome_abs (sr_ops r) =
+     [Some ([dec "a"; dec "b"; dec "c"], None); Some ([dec "a"; dec "z"; dec "c"], None);
+      Some ([dec "z"; dec "c"], None); None; None;
+      Some ([dec "z"; dec "c"; dec "w"], None); Some ([dec "z"; dec "c"; dec "w"], Some (dec "c"));
+      Some ([dec "z"; dec "c"; dec "w"], None); Some ([dec "z"; dec "c"; dec "w"], Some (dec "w"))]
+  /\ sr_close r = None
+  /\ sr_value r = dec " z\00000a c w\00000a".
+Proof. vm_compute. repeat split. Qed.
+
 Print Assumptions C11_view_reads_split.
 Print Assumptions C11_view_noop_identity.
+Print Assumptions C11_view_edit_readback_space.
+Print Assumptions C11_view_edit_valid_space.
+Print Assumptions C11_view_edit_local.
+Print Assumptions C11_view_session_refines_space.
